@@ -1,4 +1,5 @@
 import Gws.Basic
+import Gws.Spec.Utf8
 /-!
 # Go semantics used by the generated translation (`Gws/Generated/Trans.lean`)
 
@@ -11,12 +12,17 @@ Hand-written and trusted as the reading of the Go language / standard library fo
   two's complement reinterpretation; `uintN(i)` of an `int` is reduction modulo 2^N;
 * `[]byte` and `[N]byte` are `List UInt8`: indexing by a constant, slicing (`take`/`drop`), `append`
   (`++`), `copy` (`goCopy`), `encoding/binary` getters and putters;
+* `*bytes.Buffer` is the `List UInt8` of its unread bytes (`Write` appends, `Next`/`Read` drop from the front,
+  `Reset`/`Truncate`); a buffer taken from `binaryPool` is empty; `internal.Payload` is the concatenation of
+  its slices; `unicode/utf8.Valid` is RFC 3629 well-formedness (`Spec.Utf8.valid`, compared exhaustively with
+  the real function on every run by the utf8 suite);
 * `error` is `Option GoErr`: `nil`, a close status code, or an I/O error of the byte source.
 -/
 
 inductive GoErr where
   | status (code : UInt16)     -- an `internal.StatusCode` used as an error
   | io                         -- the reader ran out / failed (`io.ReadFull` did not fill the buffer)
+  | named (name : String)      -- a package-level error value (`ErrTextEncoding`, …)
 deriving Repr, DecidableEq
 
 /-- `a[i]` for a constant `i` (in range by Go's compile-time check for arrays) -/
@@ -49,3 +55,19 @@ def goBytesU64BE (v : UInt64) : List UInt8 :=
 /-- the bytes `binary.LittleEndian.PutUint32` stores -/
 def goBytesU32LE (v : UInt32) : List UInt8 :=
   [UInt8.ofNat (v.toNat % 256), UInt8.ofNat (v.toNat / 2^8 % 256), UInt8.ofNat (v.toNat / 2^16 % 256), UInt8.ofNat (v.toNat / 2^24 % 256)]
+
+/-- `binary.BigEndian.Uint32(s)` -/
+def goU32BE (s : List UInt8) : UInt32 :=
+  UInt32.ofNat ((((goIdx s 0).toNat * 256 + (goIdx s 1).toNat) * 256 + (goIdx s 2).toNat) * 256 + (goIdx s 3).toNat)
+
+/-- `unicode/utf8.Valid` -/
+def goUtf8Valid (b : List UInt8) : Bool := Spec.Utf8.valid b
+
+/-- `internal.MaskXOR(b, key)` by its specification (RFC 6455 5.3; what C18 proves of the implementation):
+byte `i` becomes byte `i` XOR `key[i mod 4]` -/
+def goMaskXOR (b key : List UInt8) : List UInt8 := b.mapIdx (fun i x => x ^^^ key.getD (i % 4) 0)
+
+/-- `internal.ReadN(r, dst)` = `io.ReadFull`: the reader `r` is the list of bytes it will deliver; either `n` bytes are
+delivered and consumed, or the call fails -/
+def goReadN (r : List UInt8) (n : Nat) : Option (List UInt8 × List UInt8) :=
+  if r.length < n then none else some (r.take n, r.drop n)
